@@ -310,3 +310,133 @@ Print Assumptions C12_encoded_info_prefix_template.
 Example C12_real_truncation_nonvacuous :
   ex_real_check (exu_json false ex_data) = true /\ ex_real_check (exu_json true ex_data_c) = true.
 Proof. exact real_truncation_nonvacuous. Qed.
+
+(* ======================================================================== *)
+(* END TO END: damage and the CONCRETE scanner (StreamFrame.v, see C11.v)     *)
+(* ======================================================================== *)
+From PBK Require Import StreamFrame StreamFrameProofs StreamFrameDamage StreamFrameTemplate.
+
+(* the section loop of a full decode splits where section 5 begins: all that
+   comes before is a function of the bits e consumed by sections 0..4 alone —
+   whatever REPLACES the rest of the stream is handed to section 5 *)
+Theorem C12_decode_sections_upto5 :
+  forall (dd : list (pname * pvalue) -> reader -> result (bits * reader)),
+  (forall p r b r', dd p r = Ok (b, r') -> r = b ++ r') ->
+  (forall p r b r' s, dd p r = Ok (b, r') -> dd p (r ++ s) = Ok (b, r' ++ s)) ->
+  (forall p, cuts (dd p)) ->
+  forall idxs props secs R secs' props' r',
+  decode_sections dd definitions false false idxs props secs R = Ok (secs', props', r') ->
+  exists e pre props5 r5,
+    R = e ++ r5 /\
+    forall x, decode_sections dd definitions false false idxs props secs (e ++ x) =
+              let* (sec, p1, r1) := decode_section dd section5 props5 x in Ok (pre ++ [sec], p1, r1).
+Proof. exact decode_sections_upto5. Qed.
+Print Assumptions C12_decode_sections_upto5.
+
+(* THE damage theorem, message level: an encoded message (hypotheses of
+   C04_frame_roundtrip) whose last four octets are replaced by any four octets
+   other than '7777', followed by ANY bytes: the full decode (as the scanner calls
+   it: no signature search, value expectations on) fails with the library's own
+   error PyBufrKitError — not with an AssertionError (repair b8d3cfd), not by
+   reading on into what follows *)
+Theorem C12_damaged_stop_signature_fails :
+  forall (dd : list (pname * pvalue) -> reader -> result (bits * reader)),
+  (forall p r b r', dd p r = Ok (b, r') -> r = b ++ r') ->
+  (forall p r b r' s, dd p r = Ok (b, r') -> dd p (r ++ s) = Ok (b, r' ++ s)) ->
+  (forall p, cuts (dd p)) ->
+  forall ign json m (x4 : list byte) t,
+  encode_message ign json = Ok m ->
+  Forall sec_fits (m_sections m) -> Forall desc_fill_ok (m_sections m) -> data_ok dd [] (m_sections m) ->
+  length x4 = 4%nat -> forallb is_byte x4 = true -> bytes_eqb x4 sig_7777 = false ->
+  decode_message dd None false false (firstn (length (m_bytes m) - 4) (m_bytes m) ++ x4 ++ t) = Err ELib.
+Proof. exact damaged_stop_signature_fails. Qed.
+Print Assumptions C12_damaged_stop_signature_fails.
+
+Theorem C12_ELib_is_library_error : is_lib_err ELib = true.
+Proof. reflexivity. Qed.
+Print Assumptions C12_ELib_is_library_error.
+
+(* what the scanner theorems ask of a damaged message, all of it, with the real
+   template decoders: it still starts with 'BUFR', has the same length, its full
+   decode fails with the library error whatever follows [full_fails], its
+   metadata-only decode succeeds whatever follows with the declared length intact
+   [info_ok].  replace_stop b x4 = b[:-4] + x4; bad_stopb x4 = four octets, not '7777' *)
+Theorem C12_e2e_damaged_stop_hyps_template : forall T_of n_of c_of view ign json m x4,
+  encode_message ign json = Ok m -> msg_wfb (dd_template T_of n_of c_of) m = true -> bad_stopb x4 = true ->
+  let d := replace_stop (m_bytes m) x4 in
+  starts_sig d /\ length d = length (m_bytes m) /\ ends_7777b d = false /\
+  full_fails (frame_process (dd_template T_of n_of c_of) view false) d ELib /\
+  info_ok (frame_process (dd_template T_of n_of c_of) view true) d.
+Proof. exact damaged_stop_hyps_template. Qed.
+Print Assumptions C12_e2e_damaged_stop_hyps_template.
+
+(* isolation, end to end.  A stream of items, each undamaged (as in C11) or with
+   its stop signature overwritten (dmg_okb: a damaged one need not be quiet).
+   With continue_on_error the concrete scanner delivers exactly the undamaged
+   messages, unchanged and in order, and ends normally — any number of damaged
+   messages anywhere, adjacent ones included. *)
+Theorem C12_e2e_continue_skips_damaged :
+  forall (dd : list (pname * pvalue) -> reader -> result (bits * reader)),
+  (forall p r b r', dd p r = Ok (b, r') -> r = b ++ r') ->
+  (forall p r b r' s, dd p r = Ok (b, r') -> dd p (r ++ s) = Ok (b, r' ++ s)) ->
+  (forall p, cuts (dd p)) ->
+  forall view tdp filt sep0 items,
+  nosigb sep0 = true -> forallb (dmg_okb dd false) items = true ->
+  frame_generate dd view tdp filt false true false (sep0 ++ assemble (dmg_stream items))
+  = (map dmg_bytes (filter undamaged items), None).
+Proof. exact e2e_continue_skips_damaged. Qed.
+Print Assumptions C12_e2e_continue_skips_damaged.
+
+Theorem C12_e2e_continue_skips_damaged_template : forall T_of n_of c_of view tdp filt sep0 items,
+  nosigb sep0 = true -> forallb (dmg_okb (dd_template T_of n_of c_of) false) items = true ->
+  frame_generate (dd_template T_of n_of c_of) view tdp filt false true false (sep0 ++ assemble (dmg_stream items))
+  = (map dmg_bytes (filter undamaged items), None).
+Proof. exact e2e_continue_skips_damaged_template. Qed.
+Print Assumptions C12_e2e_continue_skips_damaged_template.
+
+Theorem C12_e2e_continue_skips_damaged_stub : forall view tdp filt sep0 items,
+  nosigb sep0 = true -> forallb (dmg_okb stub_dd false) items = true ->
+  frame_generate stub_dd view tdp filt false true false (sep0 ++ assemble (dmg_stream items))
+  = (map dmg_bytes (filter undamaged items), None).
+Proof. exact e2e_continue_skips_damaged_stub. Qed.
+Print Assumptions C12_e2e_continue_skips_damaged_stub.
+
+(* without continue_on_error: the messages before the damaged one are delivered,
+   then PyBufrKitError surfaces; nothing is assumed about what follows *)
+Theorem C12_e2e_stops_at_damaged_template : forall T_of n_of c_of view tdp filt sep0 items it x4 rest,
+  nosigb sep0 = true -> forallb (item_okb (dd_template T_of n_of c_of) false) items = true ->
+  item_okb (dd_template T_of n_of c_of) true it = true -> bad_stopb x4 = true ->
+  frame_generate (dd_template T_of n_of c_of) view tdp filt false false false
+    (sep0 ++ assemble (stream_of items) ++ replace_stop (item_bytes it) x4 ++ rest)
+  = (map item_bytes items, Some ELib).
+Proof. exact e2e_stops_at_damaged_template. Qed.
+Print Assumptions C12_e2e_stops_at_damaged_template.
+
+(* recorded (not a defect of the model: the implementation behaves so):
+   metadata-only mode never reads section 5, so an overwritten stop signature is
+   NOT detected there — the damaged messages are delivered like the others *)
+Theorem C12_e2e_info_mode_ignores_stop_signature_template : forall T_of n_of c_of view tdp filt coe sep0 items,
+  nosigb sep0 = true -> forallb (dmg_okb (dd_template T_of n_of c_of) true) items = true ->
+  frame_generate (dd_template T_of n_of c_of) view tdp filt true coe false (sep0 ++ assemble (dmg_stream items))
+  = (map dmg_bytes items, None).
+Proof. exact e2e_info_mode_ignores_stop_signature_template. Qed.
+Print Assumptions C12_e2e_info_mode_ignores_stop_signature_template.
+
+(* non-vacuity, computed: five messages, the 2nd (a table-definition message)
+   with '7778' and the 4th with NULs in place of '7777'; the hypotheses hold; the
+   concrete scanner RUN on the stream with continue_on_error returns messages 1,
+   3, 5; without it message 1 and then PyBufrKitError; metadata-only all five *)
+Example C12_e2e_damage_nonvacuous :
+  forallb (dmg_okb e2e_dd false) e2e_dmg_items = true /\
+  map undamaged e2e_dmg_items = [true; false; true; false; true] /\
+  outcome_eqb (frame_generate e2e_dd e2e_view e2e_tdp e2e_filt false true false
+                 (e2e_sep0 ++ assemble (dmg_stream e2e_dmg_items)))
+              (map dmg_bytes (filter undamaged e2e_dmg_items), None) = true /\
+  outcome_eqb (frame_generate e2e_dd e2e_view e2e_tdp e2e_filt false false false
+                 (e2e_sep0 ++ assemble (dmg_stream e2e_dmg_items)))
+              (map dmg_bytes (firstn 1 e2e_dmg_items), Some ELib) = true /\
+  forallb (dmg_okb e2e_dd true) e2e_dmg_items = true /\
+  outcome_eqb (frame_generate e2e_dd e2e_view e2e_tdp e2e_filt true false false
+                 (e2e_sep0 ++ assemble (dmg_stream e2e_dmg_items)))
+              (map dmg_bytes e2e_dmg_items, None) = true.
+Proof. exact e2e_damage_nonvacuous. Qed.
